@@ -20,6 +20,7 @@ mod connleaf;
 mod poolmt;
 mod server;
 mod tls;
+mod tcpc;
 mod tlsp;
 mod srvk;
 mod np;
@@ -55,6 +56,7 @@ fn gen(stream: &str, seed: u64, n: u64) -> Vec<String> {
                 "poolmt" => poolmt::gen(&mut r, i),
                 "srv" => server::gen(&mut r, i),
                 "tls" => tls::gen(&mut r, i),
+                "tcpc" => tcpc::gen(&mut r, i),
                 "tlsp" => tlsp::gen(&mut r, i),
                 "srvk" => srvk::gen(&mut r, i),
                 "np" => np::gen(&mut r, i),
@@ -90,6 +92,7 @@ fn run_line(line: &str) -> String {
         "poolmt" => poolmt::run(&toks),
         "srv" => server::run(&toks),
         "tls" => tls::run(&toks),
+        "tcpc" => tcpc::run(&toks),
         "tlsp" => tlsp::run(&toks),
         "srvk" => srvk::run(&toks),
         "np" => np::run(&toks),
